@@ -551,9 +551,11 @@ package vuego
 
 //@ func (v *Vue) evalInclude(ctx, node, vars, depth) (res, err)
 //@   holds ctx.stack
+//@   assert C05.frontmatter.own.scope: len(ctx.stack.stack) == old(len(ctx.stack.stack)) + 1 && (vars != nil ==> ctx.stack.stack[len(ctx.stack.stack) - 1] == vars) at "ctx.stack.Set(k, v)"
+//@   assert C05.component.scope: len(ctx.stack.stack) == old(len(ctx.stack.stack)) + 1 at "v.evalTemplate(ctx, compDom, ctx.stack.EnvMap(), depth+1)"
 //@   ensures C05.noleak: BALANCED(ctx)
-//@   loop 0 invariant C05.balance.loop: len(ctx.stack.stack) == old(len(ctx.stack.stack)) + 1 && (forall bi int :: 0 <= bi && bi < old(len(ctx.stack.stack)) ==> ctx.stack.stack[bi] == old(ctx.stack.stack[bi]))
-//@   loop 1 invariant C05.balance.loop: len(ctx.stack.stack) == old(len(ctx.stack.stack)) + 1 && (forall bi int :: 0 <= bi && bi < old(len(ctx.stack.stack)) ==> ctx.stack.stack[bi] == old(ctx.stack.stack[bi]))
+//@   loop 0 invariant C05.balance.loop: len(ctx.stack.stack) == old(len(ctx.stack.stack)) + 1 && (forall bi int :: 0 <= bi && bi < old(len(ctx.stack.stack)) ==> ctx.stack.stack[bi] == old(ctx.stack.stack[bi])) && (vars != nil ==> ctx.stack.stack[len(ctx.stack.stack) - 1] == vars)
+//@   loop 1 invariant C05.balance.loop: len(ctx.stack.stack) == old(len(ctx.stack.stack)) + 1 && (forall bi int :: 0 <= bi && bi < old(len(ctx.stack.stack)) ==> ctx.stack.stack[bi] == old(ctx.stack.stack[bi])) && (vars != nil ==> ctx.stack.stack[len(ctx.stack.stack) - 1] == vars)
 
 //@ func (v *Vue) evalSlot(ctx, node, slotScope) (res, err)
 //@   holds ctx.stack
